@@ -135,6 +135,8 @@ def col_keys(D, full=True):
     other += ['np.int64(0)', 'np.int32(%d)' % (D - 1), 'np.array([0])', 'np.array([%d, 0])' % (D - 1), 'None', 'True',
               'np.uint8(0)', '[np.int64(0)]', 'np.array(0)', '[[0]]', '[[0], [%d]]' % (D - 1), '0.0', "b'CH1'"]
     # selectors that can be iterated only once
+    # NumPy arrays of names (a selection computed with np.array(d.channels)[...]): one name is still a list of one channel
+    other += ["np.array(['CH1'])", "np.array(['CH%d', 'CH1'])" % D, "np.array(['CH1', 'nope'])"]
     other += ["iter([0, %d])" % (D - 1), "(c for c in ['CH1', %d])" % (D - 1), "reversed([0, %d])" % (D - 1), "map(int, [%d, 0])" % (D - 1), "iter(['CH1'])", "iter([])"]
     if not full:
         other = other[:3] + ['np.int64(0)', 'np.array([0])', 'None', "iter([0, %d])" % (D - 1), "(c for c in ['CH1', %d])" % (D - 1)]
@@ -303,6 +305,8 @@ def materialize(k):
         return tuple(materialize(x) for x in k)
     if hasattr(k, '__next__') or isinstance(k, (map, reversed)):
         return list(k)
+    if isinstance(k, np.ndarray) and k.dtype.kind in 'US':
+        return k.tolist()               # an array of names is read as the list of those names
     return k
 
 
@@ -312,7 +316,7 @@ def is_lazy(kexpr):
 
 def refkey(kexpr):
     """the key as the reference reads it: a selector that can be iterated only once is read as the list of its items"""
-    return materialize(ev(kexpr)) if is_lazy(kexpr) else ev(kexpr)
+    return materialize(ev(kexpr))
 
 
 def judge(res, shape, hist, kexpr, kcls, d, m, one):
@@ -322,7 +326,7 @@ def judge(res, shape, hist, kexpr, kcls, d, m, one):
     key = ev(kexpr)
     lazy = is_lazy(kexpr)
     # a selector that can be iterated only once is spelled anew for the reference, which reads it as the list of its items
-    st = ref_index(m.vals, m.orig, refkey(kexpr) if lazy else key, m.names)
+    st = ref_index(m.vals, m.orig, refkey(kexpr), m.names)
     try:
         with warnings.catch_warnings():
             warnings.simplefilter('ignore')
@@ -350,6 +354,21 @@ def judge(res, shape, hist, kexpr, kcls, d, m, one):
             res.violation('refused-valid:%s:%s' % (key_form(kexpr), type(raised).__name__),
                           '%s raised %s: %s; plain indexing selects %s' % (what, type(raised).__name__, raised, np.asarray(st[1]).tolist()), one)
         return None
+    if not hist and isinstance(r, FlowCal.io.FCSData) and len(r.channels) and kcls == 'g':
+        # the selection owns its metadata: editing a range entry of a second, identical selection leaves the sample (and the first
+        # selection) as they were
+        try:
+            before_parent = [list(x) for x in d.range()]
+            before_first = [list(x) for x in r.range()]
+            r2 = d[ev(kexpr)]
+            r2.range(0)[0] = -4321.5
+            r2.range(0)[1] = 98765.25
+            if [list(x) for x in d.range()] != before_parent or [list(x) for x in r.range()] != before_first:
+                res.violation('selection-shares-range:%s' % key_form(kexpr), 'editing a range entry of sample%s[%s] changed the range of the sample it was taken from (or of an earlier identical selection)' % (
+                    shape, kexpr), one)
+                return None
+        except Exception:
+            pass
     rv, rc = np.asarray(st[1]), np.asarray(st[2])
     got = np.asarray(r)
     if got.shape != rv.shape or got.dtype != rv.dtype or not np.array_equal(got, rv):
